@@ -241,6 +241,7 @@ def hypothesis_pass(chk, n_examples):
 
 def main():
     chk = Check("C02", "exploration")
+    chk.max_inconclusive = 0    # deterministic component-level cases: an undecided chunk makes the whole check inconclusive
     assert_repo()
     from vlib.farm import run_cases
 
